@@ -50,7 +50,9 @@ RULE = ("complete enumeration inside stated bounds, in blocks. combine_slices: e
         "non-trivial when a broadcast or reversed axis longer than 1 is present. view_shape: every shape with axes 0..3 "
         "up to 3-d x a per-axis catalogue of slices / integers (1-d: all start/stop/step incl. negative) plus Ellipsis, "
         "short tuples, newaxis, index arrays, boolean masks. categorical_ndarray / unique: every array over the 4-symbol "
-        "alphabet ('a','b','cc','') up to length 4 (thorough 6) incl. its 2-d reshapes and two slices of it, and int / "
+        "alphabet ('a','b','cc','') up to length 4 (thorough 6) incl. its 2-d/3-d reshapes, every one of them also as "
+        "transposed view, Fortran-ordered copy, strided-rows view, reversed-columns view (1-d: reversed and strided "
+        "views), three slices of it as a categorical array, and int / "
         "float alphabets; index_lookup: every data tuple up to length 3 x every ordered duplicate-free item list. "
         "distinct = distinct (helper, input) fingerprints (combine_slices: rows).")
 ASSUMPTIONS = ["numpy basic/advanced indexing, slice.indices and np.broadcast_to are trusted (they are the definition)",
@@ -151,6 +153,9 @@ def _walk_chunks(ctx, shape, size, mode, limit, **kw):
             if not (isinstance(sl, tuple) and len(sl) == nd and all(isinstance(s, slice) for s in sl)):
                 sig, detail = "not_a_tuple_of_slices", {"chunk": sl}
                 break
+            if any((s.stop is not None and s.stop > n) or (s.step not in (None, 1)) for s, n in zip(sl, shape)):
+                # not demanded by the statement (numpy clips); recorded as evidence only
+                ctx.count("observed_chunk_slice_beyond_shape_or_stepped")
             block = cnt[sl]
             if mode == "n_max":
                 if block.size > limit:
@@ -465,14 +470,40 @@ def sorted_unique(values):
     return sorted(set(values))
 
 
+def layouts(arr):
+    """(layout name, array) presentations of the same enumerated values: the C-contiguous array itself and its
+    non-C-contiguous forms (the values seen through the presentation are what the helpers must reproduce)."""
+    out = [("c_contiguous", arr)]
+    if arr.ndim == 1:
+        if arr.size >= 2:
+            out.append(("reversed_view", arr[::-1]))
+            out.append(("strided_view", np.repeat(arr, 2)[::2]))
+    else:
+        out.append(("transposed_view", arr.T))
+        out.append(("fortran_copy", np.asfortranarray(arr)))
+        out.append(("strided_rows_view", arr[::2]))
+        out.append(("reversed_columns_view", arr[:, ::-1]))
+        if arr.ndim == 3:
+            out.append(("axes_swapped_view", arr.transpose(1, 0, 2)))
+    return out
+
+
 def check_cat_array(ctx, vals, shape, tag):
-    """vals: flat python list; shape: how to shape it."""
-    arr = np.array(vals).reshape(shape)
-    exp_cats = sorted_unique(vals)
+    """vals: flat python list; shape: how to shape it.  Every layout of the array is checked."""
+    base = np.array(vals).reshape(shape)
+    for layout, arr in layouts(base):
+        check_cat_presented(ctx, arr, tag, layout, vals, shape)
+
+
+def check_cat_presented(ctx, arr, tag, layout, vals, shape):
+    seen = arr.ravel().tolist()
+    exp_cats = sorted_unique(seen)
     ndist = len(exp_cats)
-    feats = {"ndim": len(shape), "alphabet": tag}
+    feats = {"ndim": arr.ndim, "alphabet": tag, "layout": layout}
+    wit = {"enumerated_values": vals, "enumerated_shape": shape, "layout": layout, "array": arr, "strides": arr.strides}
+    ctx.count("layout_%s_cases" % layout)
     # -- unique
-    ctx.evaluation(["uniq", tag, vals, shape], ndist >= 2)
+    ctx.evaluation(["uniq", tag, vals, shape, layout], ndist >= 2)
     ctx.count("unique_cases")
     try:
         U, I = unique(arr)
@@ -481,33 +512,36 @@ def check_cat_array(ctx, vals, shape, tag):
     except Exception as exc:
         sig = {"helper": "unique", "kind": "exception", "exc": type(exc).__name__}
         sig.update(feats)
-        ctx.violation(sig, {"values": vals, "shape": shape, "error": repr(exc)})
+        ctx.violation(sig, dict(wit, error=repr(exc)))
     else:
         if not (ok_sorted and ok_back):
-            sig = {"helper": "unique", "kind": "categories_not_sorted_unique" if not ok_sorted else "U[I]_differs"}
+            sig = {"helper": "unique", "kind": "categories_not_sorted_unique" if not ok_sorted else
+                   ("index_shape" if I.shape != arr.shape else "U[I]_differs")}
             sig.update(feats)
-            ctx.violation(sig, {"values": vals, "shape": shape, "U": U, "I": I})
+            ctx.violation(sig, dict(wit, U=U, I=I))
     if tag != "str":
         return
-    # -- categorical_ndarray
-    ctx.evaluation(["cat", vals, shape], ndist >= 2)
-    ctx.count("categorical_cases")
-    try:
-        c = categorical_ndarray(arr)
-        cats, codes = c.categories, c.codes
-        problems = cat_problems(cats, codes, arr, exact=exp_cats)
-    except Exception as exc:
-        sig = {"helper": "categorical_ndarray", "kind": "exception", "exc": type(exc).__name__, "derived_view": False}
-        sig.update(feats)
-        ctx.violation(sig, {"values": vals, "shape": shape, "error": repr(exc)})
-        return
-    if problems:
-        sig = {"helper": "categorical_ndarray", "kind": problems, "derived_view": False}
-        sig.update(feats)
-        ctx.violation(sig, {"values": vals, "shape": shape, "categories": cats, "codes": codes})
+    # -- categorical_ndarray (a copy keeping the memory order, and - for views - the view itself)
+    for copy in ((True,) if layout == "c_contiguous" else (True, False)):
+        ctx.evaluation(["cat", vals, shape, layout, copy], ndist >= 2)
+        ctx.count("categorical_cases")
+        try:
+            c = categorical_ndarray(arr, copy=copy)
+            cats, codes = c.categories, c.codes
+            problems = cat_problems(cats, codes, arr, exact=exp_cats)
+        except Exception as exc:
+            sig = {"helper": "categorical_ndarray", "kind": "exception", "exc": type(exc).__name__, "derived_view": False,
+                   "copy": copy}
+            sig.update(feats)
+            ctx.violation(sig, dict(wit, error=repr(exc)))
+            continue
+        if problems:
+            sig = {"helper": "categorical_ndarray", "kind": problems, "derived_view": False, "copy": copy}
+            sig.update(feats)
+            ctx.violation(sig, dict(wit, categories=cats, codes=codes))
     # -- views of a categorical array keep the identity categories[codes] == values (1-d only: index_lookup is 1-d)
-    if len(shape) == 1 and len(vals) >= 2:
-        for name, sl in (("tail", slice(1, None)), ("every_second", slice(None, None, 2))):
+    if arr.ndim == 1 and arr.size >= 2 and layout == "c_contiguous":
+        for name, sl in (("tail", slice(1, None)), ("every_second", slice(None, None, 2)), ("reversed", slice(None, None, -1))):
             ctx.evaluation(["catview", vals, name], ndist >= 2)
             ctx.count("categorical_view_cases")
             try:
@@ -518,12 +552,12 @@ def check_cat_array(ctx, vals, shape, tag):
                 sig = {"helper": "categorical_ndarray", "kind": "exception", "exc": type(exc).__name__,
                        "derived_view": True}
                 sig.update(feats)
-                ctx.violation(sig, {"values": vals, "slice": sl, "error": repr(exc)})
+                ctx.violation(sig, dict(wit, slice=sl, error=repr(exc)))
                 continue
             if problems:
                 sig = {"helper": "categorical_ndarray", "kind": problems, "derived_view": True}
                 sig.update(feats)
-                ctx.violation(sig, {"values": vals, "slice": sl, "categories": cats, "codes": codes})
+                ctx.violation(sig, dict(wit, slice=sl, categories=cats, codes=codes))
 
 
 def cat_problems(cats, codes, arr, exact):
